@@ -148,7 +148,16 @@ def gated(ck, label, cases, tables, random_n, shards, retry=0):
         payloads.append(dict(seed=ck.seed * 100 + i, dir=os.path.join(db, "s%d" % i), out=os.path.join(d, "g%d.ndjson" % i), tables=tables, cases=part,
                              random=(random_n + shards - 1 - i) // shards, retry=retry))
     with concurrent.futures.ThreadPoolExecutor(shards) as ex:
-        outs = list(ex.map(lambda p: core.harness(binary, "gated", p, timeout=2400), payloads))
+        def shard(p):
+            try:
+                return core.harness(binary, "gated", p, timeout=2400)
+            except core.Crashed as e:       # a Go fatal error cannot be recovered per run: the shard's remaining runs are lost
+                process_died(ck, e, "gate-controlled schedules (%s)" % label, dict(driver="gated", payload=p))
+                return None
+        outs = list(ex.map(shard, payloads))
+    if any(o is None for o in outs):
+        ck.note("%s: %d of %d shards died inside the recorder (reported); their logs are not validated" % (label, sum(o is None for o in outs), len(outs)))
+        return collections.Counter()
     # one trace file, run numbers made unique per shard
     allpath = os.path.join(d, "gated.ndjson")
     results, logs, events = {}, {}, 0
@@ -231,9 +240,25 @@ def gated(ck, label, cases, tables, random_n, shards, retry=0):
     return stats
 
 
+def process_died(ck, e, what, inp):
+    """A driver process that dies of a Go fatal error (e.g. unlock of an unlocked mutex while a panic unwinds) cannot be
+    recovered inside the harness; when the fatal error / panic was raised in the recorder's own code it is a failure of the
+    real code and is reported, anything else is the harness's problem (exit 2)."""
+    where = e.akita_panic()
+    if not where or "datarecording" not in where:
+        raise e
+    with LOCK:
+        ck.report({"mode": "process_died", "symptom": "fatal:" + panic_class(where)}, "%s: the process died inside the recorder: %s" % (what, where),
+                  {"input": inp, "stderr_tail": e.stderr[-3000:]})
+    return None
+
+
 def values(ck, rounds, n):
     binary = get_binary(ck)
-    out = core.harness(binary, "values", dict(seed=ck.seed, dir=dbdir(), rounds=rounds, n=n, both_late=rounds > 1), timeout=1200)
+    try:
+        out = core.harness(binary, "values", dict(seed=ck.seed, dir=dbdir(), rounds=rounds, n=n, both_late=rounds > 1), timeout=1200)
+    except core.Crashed as e:
+        return process_died(ck, e, "sequential round trips (one goroutine)", dict(driver="values", seed=ck.seed, rounds=rounds, n=n))
     stats = collections.Counter()
     with LOCK:
         for r in out["results"]:
@@ -269,8 +294,11 @@ def free(ck, label, runs, race=False, single_every=0, budget=0, max_per=60, tlc_
     env = {}
     if race:
         env["GORACE"] = "log_path=%s exitcode=0 halt_on_error=0" % os.path.join(d, "race")
-    out = core.harness(binary, "free", dict(seed=ck.seed + (7 if race else 0), dir=dbdir(), out=path, runs=runs, max_inserters=8, single_every=single_every,
-                                            max_per_inserter=max_per, rich=True, tlc_limit=tlc_limit, budget_s=budget), timeout=2400, env=env)
+    try:
+        out = core.harness(binary, "free", dict(seed=ck.seed + (7 if race else 0), dir=dbdir(), out=path, runs=runs, max_inserters=8, single_every=single_every,
+                                                max_per_inserter=max_per, rich=True, tlc_limit=tlc_limit, budget_s=budget), timeout=2400, env=env)
+    except core.Crashed as e:
+        return process_died(ck, e, "free-running goroutines (%s)" % label, dict(driver="free", seed=ck.seed, runs=runs))
     tl = {}
     if out["traced"]:
         v = tracecheck.validate(Locked(ck), ["recorder", "common"], "RecorderTrace", "RecorderTrace_abs.cfg", path, timeout=3000)
